@@ -95,7 +95,7 @@ func c04(c *Ctx) {
 	contentId := m.put.Params[2]
 	content := m.put.Params[3]
 	keyOK := func(fn *ssa.Function, v ssa.Value, idParam *ssa.Parameter) bool {
-		call, ok := v.(*ssa.Call)
+		call, ok := core.Unwrap(v).(*ssa.Call) // seen through conversions to and from a named key type
 		if !ok || core.StaticCalleeFn(call) != m.keyFn || len(call.Call.Args) < 2 {
 			return false
 		}
@@ -279,7 +279,7 @@ func c04(c *Ctx) {
 				nw++
 				okKey := isSizeKey(key) || isIterKey(key)
 				if !okKey {
-					if call, ok := key.(*ssa.Call); ok && core.StaticCalleeFn(call) == m.keyFn {
+					if call, ok := core.Unwrap(key).(*ssa.Call); ok && core.StaticCalleeFn(call) == m.keyFn {
 						okKey = true
 					}
 				}
@@ -304,7 +304,7 @@ func c04(c *Ctx) {
 			if !ok || core.CalleeID(call) != "bytes.Equal" {
 				return false
 			}
-			a, b := call.Call.Args[0], call.Call.Args[1]
+			a, b := core.Unwrap(call.Call.Args[0]), core.Unwrap(call.Call.Args[1])
 			return (isSizeKey(a) && isIterKey(b)) || (isSizeKey(b) && isIterKey(a))
 		})
 		w := core.InstrGuarded(ci, notReserved, nil)
